@@ -1,0 +1,22 @@
+//go:build verif
+
+package immunitycache
+
+// Contracts for govc (/verif). Comment-only file: no executable code, not part of the default build.
+
+/*@
+spec fn validConfig(c *CacheConfig) bool = len(c.Name) > 0 && 1 <= c.NumChunks && c.NumChunks <= 128 && c.MaxNumItems >= 4 && 4 <= c.MaxNumBytes && c.MaxNumBytes <= 1073741824 && c.NumItemsToPreemptivelyEvict >= 1
+
+func (config *CacheConfig) Verify() (err error)
+  ensures accepted-is-valid: err == nil ==> validConfig(config)
+  ensures valid-is-accepted: validConfig(config) ==> err == nil
+  assigns nothing
+
+func (config *CacheConfig) getChunkConfig() (c immunityChunkConfig)
+  requires validConfig(config)
+  ensures  items-at-least-1: c.maxNumItems >= 1
+  ensures  bytes-at-least-1: c.maxNumBytes >= 1
+  ensures  evict-at-least-1: c.numItemsToPreemptivelyEvict >= 1
+  ensures  within-total: c.maxNumItems <= config.MaxNumItems && c.maxNumBytes <= config.MaxNumBytes && c.numItemsToPreemptivelyEvict <= config.NumItemsToPreemptivelyEvict
+  assigns nothing
+@*/
